@@ -34,8 +34,8 @@ ASSUMPTIONS = [
     'a user type is declared when its base is a supported core type, an enumeration or a user type',
     'the order of the xs:attribute declarations inside a class, of the class elements and of the simple types is not '
     'compared (the statement fixes only the order of enumerators)',
-    'data types are in scope when global (in no component) or contained in the component; data types of another '
-    'component used by a class are outside the alphabet',
+    'data types are in scope when global (in no component) or contained in the component; an attribute whose type lives in '
+    'another component keeps the type name, the simple type is declared only where it is in scope',
     'gen_xsd_schema.main (0.25 s per call for parsing the ooaofooa schema) runs for every component in every state of depth '
     '<= 1 (thorough: <= 2); in every state the same serialisation steps (ElementTree.tostring + prettify) run on the tree '
     'returned by build_schema',
